@@ -7,6 +7,8 @@
 #include <unistd.h>
 
 bool (*containSegvHook)(void *addr, void *ucontext) = nullptr;
+bool (*containSegvHookConst)(void *addr, void *ucontext) = nullptr;
+bool (*containTrapHook)(void *ucontext) = nullptr;
 
 namespace {
 struct Frame {
@@ -24,6 +26,12 @@ thread_local void *tl_altstack = nullptr;
 void handler(int sig, siginfo_t *si, void *uc) {
     if (sig == SIGSEGV && containSegvHook && containSegvHook(si->si_addr, uc))
         return;
+    if (sig == SIGSEGV && containSegvHookConst && containSegvHookConst(si->si_addr, uc))
+        return;
+    if (sig == SIGTRAP) {
+        if (containTrapHook && containTrapHook(uc)) return;
+        return;  // a stray single-step trap is harmless
+    }
     Frame *f = tl_frame;
     if (f && f->armed) {
         f->armed = false;
@@ -61,7 +69,7 @@ void containInstall() {
     sa.sa_sigaction = handler;
     sa.sa_flags = SA_SIGINFO | SA_ONSTACK | SA_NODEFER;
     sigemptyset(&sa.sa_mask);
-    int sigs[] = {SIGSEGV, SIGBUS, SIGFPE, SIGABRT, SIGILL, SIGALRM};
+    int sigs[] = {SIGSEGV, SIGBUS, SIGFPE, SIGABRT, SIGILL, SIGALRM, SIGTRAP};
     for (int s : sigs) sigaction(s, &sa, nullptr);
 }
 
